@@ -286,6 +286,12 @@ SUBCHECKS = [
     SubCheck("grid_axis_sweeps", check_grid_roundtrip, enumerate=T.grid_sweeps(20000, 320000), nontrivial=_nt_grid, classes=_cls_grid,
              shards_quick=8, shards_thorough=16,
              rule="stratified sweeps through northings and eastings (20 000 / 320 000 points per line, lines fixed by the seed)"),
+    SubCheck("geo_fill", check_geo_roundtrip, enumerate=T.geo_fill(60000, 1200000, salt=212), nontrivial=_nt_geo, classes=T.tm_classes,
+             shards_quick=12, shards_thorough=16,
+             rule="low-discrepancy fill of latitude x longitude / zone x offset x ellipsoid x projection: 60 000 / 1 200 000 points"),
+    SubCheck("grid_fill", check_grid_roundtrip, enumerate=T.grid_fill(40000, 800000, salt=213), nontrivial=_nt_grid, classes=_cls_grid,
+             shards_quick=12, shards_thorough=16,
+             rule="low-discrepancy fill of zone x hemisphere x northing x easting x ellipsoid x projection: 40 000 / 800 000 points"),
     SubCheck("interleaved_calls", check_interleaved, strategy=interleaved_cases,
              nontrivial=lambda c: len({(str(o["ell"]), o["dir"]) for o in c["ops"]}) >= 3,
              classes=lambda c: ["ellipsoids:%d" % len({str(o["ell"]) for o in c["ops"]}), "calls:%d" % len(c["ops"])],
